@@ -224,7 +224,7 @@ def _one_route(case, route, seq, spec, kw, label, d, isxy):
     Dg, De = _dissipator(got, d), _dissipator(exp_ops, d)
     scale = max(1.0, np.abs(De).max())
     nz = np.abs(De).max() > 1e-6
-    if np.abs(Dg - De).max() > 1e-9 * scale:
+    if not np.abs(Dg - De).max() <= 1e-9 * scale:  # NaN fails
         # Is the mismatch exactly one of the two recorded defects (and nothing else)?  Build what those defects would produce
         # from Pulser's operators and compare; any other deviation keeps its own signature.
         known = []
@@ -233,7 +233,7 @@ def _one_route(case, route, seq, spec, kw, label, d, isxy):
             if tag == "eff" and d == 3 and not isxy:
                 A = np.array(Lp, dtype=complex)
                 A[:2, :2] = A[:2, :2][::-1, ::-1]  # only the 2x2 block is mapped, rows/columns to and from x keep Pulser's r/g order
-                if np.abs(A - L).max() > 1e-12:
+                if not np.abs(A - L).max() <= 1e-12:  # NaN fails
                     known.append("eff_noise-3x3-x-rows-not-swapped")
                 alt.append(A)
             elif tag == "dephasing" and d == 3:
